@@ -15,10 +15,13 @@ F1, F2 = '<<"a","b">>', '<<"a","c">>'
 INV = ["CombineRefines", "RefusedWritesNothing", "NoSharedWrites", "PoolOK", "Emit"]
 
 
-def cfg(**c):
+F1L, F2L = '<<"a","b","c","d">>', '<<"a","e","f","g">>'
+
+
+def cfg(f1=F1, f2=F2, **c):
     base = dict(W=2, SchedMode='"fifo"', MapOrder='"disk"', ModeAssign='"assign"')
     base.update(c)
-    return {"INIT": "Init", "NEXT": "Next", "DEFS": {"F1": F1, "F2": F2}, "CONSTANTS": base,
+    return {"INIT": "Init", "NEXT": "Next", "DEFS": {"F1": f1, "F2": f2}, "CONSTANTS": base,
             "INVARIANTS": INV, "PROPERTIES": ["InputsUnchanged"]}
 
 
@@ -26,8 +29,10 @@ def models(tier):
     if tier == "quick":
         return [("pairs, one level", cfg(MaxLev=1, MaxBox=3, MaxFile=2, MaxBox2=1)),
                 ("pairs, two levels", cfg(MaxLev=2, MaxBox=2, MaxFile=2, MaxBox2=2)),
-                ("schedules", cfg(MaxLev=1, MaxBox=2, MaxFile=2, MaxBox2=1, SchedMode='"all"'))]
-    return [("pairs, one level, 3 files", cfg(MaxLev=1, MaxBox=3, MaxFile=3, MaxBox2=1)),
+                ("schedules", cfg(MaxLev=1, MaxBox=2, MaxFile=2, MaxBox2=1, SchedMode='"all"')),
+                ("selections of four-field inputs", cfg(F1L, F2L, MaxLev=1, MaxBox=1, MaxFile=1, MaxBox2=1))]
+    return [("selections of four-field inputs", cfg(F1L, F2L, MaxLev=1, MaxBox=2, MaxFile=2, MaxBox2=1)),
+            ("pairs, one level, 3 files", cfg(MaxLev=1, MaxBox=3, MaxFile=3, MaxBox2=1)),
             ("pairs, two levels", cfg(MaxLev=2, MaxBox=3, MaxFile=2, MaxBox2=2)),
             ("schedules", cfg(MaxLev=2, MaxBox=3, MaxFile=3, MaxBox2=1, SchedMode='"all"', W=3))]
 
@@ -94,7 +99,7 @@ def run_scenario(chk, sc, cfgseed, as_string=False, flavour="sched", workers=Non
     sc = dict(sc, f1=ren(sc["f1"]), f2=ren(sc["f2"]), v1=ren(sc["v1"]), v2=ren(sc["v2"]),
               expect=(dict(exp0, fields=ren(exp0["fields"])) if exp0.get("k") == "ok" else exp0))
     ap1, ap2 = build_pair(sc)
-    d = chk.tmp()
+    d = chk.tmp_reuse()
     os.makedirs(d)
     p1, p2, out = os.path.join(d, "first"), os.path.join(d, "second"), os.path.join(d, "out")
     reg = gamma.write_plotfile(p1, ap1, cfg_)
